@@ -56,7 +56,10 @@ def _mk():
     # high level, small spread (|mean| > 100 * std) and a constant non-zero second data set: "numerical stability"
     # shortcuts (centring, rescaling) that touch the caller's data in place show on such data
     Hh = pd.DataFrame({"a": [1013.0, 1012.5, 1013.5, 1013.0, 1019.0, 1018.5, 1019.5, 1019.0]})
-    d = {"A": A, "Ap": Ap, "B": B, "U": U, "H": Hh}
+    # D: rows 3 and 6 are equal, so the pooled surroundings of the cut BADCUT = (3, 4, 6, 7) have zero variance (the documented
+    # RuntimeError of the covariance cost is raised in the MIDDLE of an evaluate call); the standard cuts evaluate fine
+    D = pd.DataFrame({"a": [0.0, 0.5, 1.0, 0.0, 4.0, 4.5, 0.0, 2.0]})
+    d = {"A": A, "Ap": Ap, "B": B, "U": U, "H": Hh, "D": D}
     # contents of the caller-owned MUTABLE buffer "M" (world entry "__M__"): the caller overwrites it in place
     # between calls (event "mutate"); version 0 / 1
     d["M0"] = pd.DataFrame({"a": [0.0, 0.5, 0.0, 0.5, 4.0, 4.5, 4.0, 4.5]})
@@ -70,6 +73,7 @@ DATA = _mk()
 DATA_CANON = {k: H.canon_value(v) for k, v in DATA.items()}
 CUTS = {2: np.array([[0, 4], [1, 6]]), 3: np.array([[0, 2, 5], [1, 3, 6]]), 4: np.array([[0, 1, 4, 6], [0, 2, 4, 5]])}
 CUTS_CANON = {k: H.canon_value(v) for k, v in CUTS.items()}
+BADCUT = np.array([[0, 1, 4, 6], [3, 4, 6, 7]])
 
 
 # ---------------------------------------------------------------------------------
@@ -317,6 +321,9 @@ def worlds():
     W["localscore"] = (lambda: {"s": asc.LocalAnomalyScore(co.L2Cost())}, {
         "sets": [("s", "cost__param", 1.0, "L2Cost"), ("s", "cost", Spec("GaussianVarCost", param=None)), ("s", "cost__param", (0.0, 2.0), "GaussianVarCost")],
         "data": ("A", "Ap", "B"), "deep": True})
+    # a call that FAILS half-way (documented RuntimeError) must not change later results
+    W["localscore-cov-failing-call"] = (lambda: {"s": asc.LocalAnomalyScore(co.GaussianCovCost())},
+                                        {"sets": [], "data": ("D", "A"), "evalbad": True, "deep": True})
     W["localscore-gv"] = (lambda: {"s": asc.LocalAnomalyScore(co.GaussianVarCost())}, {
         "sets": [("s", "cost__param", (0.0, 2.0)), ("s", "cost__param", (1.0, 0.5))], "data": ("A", "Ap", "B"), "deep": True})
     return W
@@ -352,6 +359,8 @@ def events_for(objs, cfg):
             for d in data:
                 ev.append(("sfit", name, d))
             ev.append(("eval", name))
+            if cfg.get("evalbad"):
+                ev.append(("evalbad", name))
             if len(objs) == 1:
                 ev.append(("clone", name))
         ev.append(("getp", name))
@@ -442,7 +451,7 @@ class Explorer:
         case = {"world": self.wname, "history": [ev_json(e) for e in path + [ev]]}
         key = {"world": self.wname, "event": kind}
         names = {id(o): n for n, o in self.ests(world)}
-        before = {n: params_canon(o, names) for n, o in self.ests(world)} if kind in ("fit", "fitpredict", "predict", "transform", "tscores", "update", "sfit", "eval", "getp") else None
+        before = {n: params_canon(o, names) for n, o in self.ests(world)} if kind in ("fit", "fitpredict", "predict", "transform", "tscores", "update", "sfit", "eval", "evalbad", "getp") else None
         X, dkey = self.data_for(world, model, ev[2]) if kind in ("fit", "fitpredict", "predict", "transform", "tscores", "sfit") else (None, None)
 
         def real(f):
@@ -530,6 +539,10 @@ class Explorer:
                               f"{name}.evaluate(cuts) -> {self.short(got)}; pristine object fitted on {cands or 'nothing'} -> {self.short(wants[0])}",
                               key)
             self.outputs.add(hashlib.md5(repr(got).encode()).hexdigest())
+        elif kind == "evalbad":
+            # an evaluate call that raises half-way; its outcome is not judged (C01 / C06 do), only that it changes nothing
+            got = real(lambda: obj.evaluate(BADCUT.copy()) is None)
+            acc.count("failing_evaluate_calls_" + ("raised_" + got[1] if got[0] == "exc" else "returned"))
         elif kind == "set":
             pkey, val = ev[2], ev[3]
             rv = H.build(val) if isinstance(val, Spec) else copy.deepcopy(val)
@@ -648,6 +661,8 @@ class Explorer:
         m = model[name]
         if kind == "update":
             return m.fitted and m.fitdata in ("A", "Ap", "A+U", "Ap+U")
+        if kind == "evalbad":
+            return m.fitted and m.fitdata == "D" and not m.stale
         if kind == "set":
             pkey, val = ev[2], ev[3]
             if len(ev) > 4:
